@@ -56,7 +56,8 @@ double Random(void)
 
 	double ret = 0.0;
 	unsigned lzs = intrinsics_clz(u_val) + 1;
-	u_val <<= lzs;
+	u_val <<= lzs - 1;
+	u_val <<= 1;
 	u_val >>= 12;
 
 	uint64_t exp = 1023 - lzs;
